@@ -32,7 +32,7 @@ MODULES = [
 
 #: extra modules used only by the whole-tool checks (C16, C18): several user exceptions with ``Raises:`` docs,
 #: sets of strings as results, a class hierarchy with a base-class parameter type.
-EXTRA_MODULES = ["vfx_ledger", "vfx_tags", "vfx_shapes"]
+EXTRA_MODULES = ["vfx_ledger", "vfx_tags", "vfx_shapes", "vfx_cli"]
 
 #: modules whose public functions are pure and whose classes keep state only in instances —
 #: i.e. *all* of them; kept as a separate name so a check can say what it relies on.
